@@ -22,6 +22,7 @@
 #include "lpc/functional.h"
 #include "lpc/program.h"
 #include "src/interpret.h"
+#include "lpc/lex.h"
 
 #define NSLOT 10
 #define NOBJ 4
@@ -165,6 +166,15 @@ static void track (void *p, int kind)
     }
 }
 
+/* after a range assignment: the slot holds a new array / buffer only when the length changed */
+static void track_slot_if_new (int d)
+{
+  svalue_t *sv = slot (d);
+  void *p = sv->type == T_ARRAY ? (void *) sv->u.arr : sv->type == T_BUFFER ? (void *) sv->u.buf : 0;
+  if (p && !tracked (p))
+    track (p, sv->type == T_ARRAY ? K_ARR : K_BUF);
+}
+
 static void track_slot (int d)
 {
   svalue_t *sv = slot (d);
@@ -202,8 +212,28 @@ static unsigned long cell_ref (int i)
   return 0;
 }
 
+/* development aid (tools: notes/C06-coverage.md, "opcodes never executed"): C06_OPHIST=<dir> makes every case leave
+ * the per-opcode execution counts of hook verif_op_hist in <dir>/<pid> */
+extern unsigned long verif_op_hist[256];
+static void dump_ophist (void)
+{
+  const char *d = getenv ("C06_OPHIST");
+  char fn[512];
+  FILE *f;
+  if (!d)
+    return;
+  snprintf (fn, sizeof fn, "%s/%d", d, (int) getpid ());
+  if (!(f = fopen (fn, "w")))
+    return;
+  for (int i = 0; i < 256; i++)
+    if (verif_op_hist[i])
+      fprintf (f, "%d %s %lu\n", i, instrs[i].name ? instrs[i].name : "?", verif_op_hist[i]);
+  fclose (f);
+}
+
 static void print_state (const char *status)
 {
+  dump_ophist ();
   static char buf[400000];
   char *o = buf;
   long now[7];
@@ -544,6 +574,28 @@ static int unit_op (int n, char **t, int *a)
       free_svalue (slot (a[1]), "c06");
       *slot (a[1]) = *sp--;
     }
+  else if (!strcmp (t[0], "saddl"))
+    {
+      /* v[d] = <number> + v[s]: f_add with a number on the left */
+      push_number (0);		/* the slot of the left (number) operand: the macro stores the result there */
+      push_svalue (slot (a[2]));
+      {
+        char *y = t[3];
+        SVALUE_STRING_ADD_LEFT (y, "c06");
+      }
+      free_svalue (slot (a[1]), "c06");
+      *slot (a[1]) = *sp--;
+    }
+  else if (!strcmp (t[0], "sadd2"))
+    {
+      /* v[d] = v[s] + v[t]: f_add with two strings, both pushed */
+      push_svalue (slot (a[2]));
+      push_svalue (slot (a[3]));
+      SVALUE_STRING_JOIN (sp - 1, sp, "c06");
+      sp--;
+      free_svalue (slot (a[1]), "c06");
+      *slot (a[1]) = *sp--;
+    }
   else if (!strcmp (t[0], "schar"))
     {
       /* v[d][i] = c: push_indexed_lvalue unlinks the string, then the byte is stored */
@@ -563,7 +615,10 @@ static int unit_op (int n, char **t, int *a)
       command_giver = user_ob;
       /* odd slot sum: get_char() - the same bookkeeping in a second copy of the code */
       if (!((((a[2] + a[3]) & 1) && t[0][3] != 'r') ? get_char (&fun, 0, 2, args) : input_to (&fun, 0, 2, args)))
-        vh_out ("harness-error input_to refused");
+        {
+          if (!input_pending)
+            vh_out ("harness-error input_to refused");
+        }
       current_object = save_co;
       command_giver = save_cg;
     }
@@ -672,9 +727,9 @@ static int applicable (int n, char **t, int *a)
     return n == 2 && a[1] >= 0 && a[1] < NSENT && sent_used[a[1]] && objok (sent_owner[a[1]])
       && hobj (sent_owner[a[1]]) == sent_ownerp[a[1]];
   if (!strcmp (op, "sappend") || !strcmp (op, "sjoin") || !strcmp (op, "sadd") || !strcmp (op, "schar")
-      || !strcmp (op, "srange"))
+      || !strcmp (op, "srange") || !strcmp (op, "saddl") || !strcmp (op, "sadd2"))
     {
-      int src = !strcmp (op, "sadd") ? a[2] : a[1];
+      int src = (!strcmp (op, "sadd") || !strcmp (op, "saddl") || !strcmp (op, "sadd2")) ? a[2] : a[1];
       svalue_t *sv;
       if (!SL (a[1]) || !SL (src))
         return 0;
@@ -685,8 +740,10 @@ static int applicable (int n, char **t, int *a)
         return 1;
       if (!strcmp (op, "sappend"))
         return n == 3;
-      if (!strcmp (op, "sadd"))
+      if (!strcmp (op, "sadd") || !strcmp (op, "saddl"))
         return n == 4;
+      if (!strcmp (op, "sadd2"))
+        return n == 4 && SL (a[3]) && slot (a[3])->type == T_STRING && (slot (a[3])->subtype & STRING_COUNTED) && !dangling (slot (a[3]));
       if (!strcmp (op, "sjoin"))
         return n == 3 && SL (a[2]) && slot (a[2])->type == T_STRING && (slot (a[2])->subtype & STRING_COUNTED);
       if (!strcmp (op, "schar"))
@@ -694,7 +751,7 @@ static int applicable (int n, char **t, int *a)
       return n == 5 && lpc_mode && a[2] >= 0 && a[2] <= a[3] && (size_t) a[3] < SVALUE_STRLEN (sv) && strlen (t[4]) > 0;
     }
   if (!strcmp (op, "inp") || !strcmp (op, "inpr"))
-    return n == 4 && objok (a[1]) && !objkind[a[1]] && SL (a[2]) && SL (a[3]) && !input_pending && user_ob;
+    return n == 4 && objok (a[1]) && !objkind[a[1]] && SL (a[2]) && SL (a[3]) && user_ob;	/* while one is pending: refused */
   if (!strcmp (op, "input"))
     return input_pending;
   if (!strcmp (op, "clones"))
@@ -707,6 +764,21 @@ static int applicable (int n, char **t, int *a)
         if (exist_used[o] == 2)
           return 0;
       return 1;
+    }
+  if (!strcmp (op, "arange") || !strcmp (op, "arangev") || !strcmp (op, "brange"))
+    {
+      /* v[d][i .. i+len-1] = rhs: arange d i len n t f | arangev d i len t f | brange d i len n */
+      svalue_t *dv;
+      if (!lpc_mode || !SL (a[1]) || a[2] < 0 || a[3] < 0)
+        return 0;
+      dv = slot (a[1]);
+      if (op[0] == 'b')
+        return n == 5 && dv->type == T_BUFFER && !dangling (dv) && a[2] + a[3] <= (int) dv->u.buf->size && a[4] > 0;
+      if (dv->type != T_ARRAY || dangling (dv) || a[2] + a[3] > dv->u.arr->size)
+        return 0;
+      if (op[6] == 'v')
+        return n == 6 && SL (a[4]) && a[4] != a[1] && slot (a[4])->type == T_ARRAY && !dangling (slot (a[4])) && a[5] >= 0 && a[5] < 2;
+      return n == 7 && a[4] > 0 && SL (a[5]) && a[6] >= 0 && a[6] < 2;
     }
   if (!strcmp (op, "reclaim"))
     return n == 1 && lpc_mode;
@@ -870,7 +942,7 @@ static int c06_cmd (char *line)
       {"fill", {1, 3, 0}}, {"assign", {1, 2, 0}}, {"aset", {1, 3, 0}}, {"aget", {1, 2, 0}},
       {"mset", {1, 2, 3}}, {"mdel", {1, 2, 0}}, {"push", {1, 0, 0}}, {"popto", {1, 0, 0}},
       {"setvar", {3, 0, 0}}, {"getvar", {1, 0, 0}}, {"oref", {1, 0, 0}}, {"call", {4, 5, 0}},
-      {"sent", {3, 4, 0}}, {"inp", {2, 3, 0}}, {"inpr", {2, 3, 0}}, {"sappend", {1, 0, 0}}, {"sjoin", {1, 2, 0}}, {"sadd", {1, 2, 0}},
+      {"sent", {3, 4, 0}}, {"inp", {2, 3, 0}}, {"inpr", {2, 3, 0}}, {"arange", {1, 5, 0}}, {"arangev", {1, 4, 0}}, {"brange", {1, 0, 0}}, {"sappend", {1, 0, 0}}, {"sjoin", {1, 2, 0}}, {"sadd", {1, 2, 0}}, {"saddl", {1, 2, 0}}, {"sadd2", {1, 2, 3}},
       {"schar", {1, 0, 0}}, {"srange", {1, 0, 0}}, {"err", {1, 2, 0}}, {"efun", {2, 3, 0}}, {"fefun", {2, 3, 0}},
       {0, {0, 0, 0}}
     };
@@ -1107,8 +1179,11 @@ static int c06_cmd (char *line)
   if (!strcmp (t[0], "newarr") || !strcmp (t[0], "newmap") || !strcmp (t[0], "newcls") || !strcmp (t[0], "newbuf")
       || !strcmp (t[0], "newstr") || !strcmp (t[0], "newmstr") || !strcmp (t[0], "newfun") || !strcmp (t[0], "fill")
       || !strcmp (t[0], "sappend") || !strcmp (t[0], "sjoin") || !strcmp (t[0], "sadd") || !strcmp (t[0], "schar")
+      || !strcmp (t[0], "saddl") || !strcmp (t[0], "sadd2")
       || !strcmp (t[0], "srange"))
     track_slot (a[1]);
+  else if (!strcmp (t[0], "arange") || !strcmp (t[0], "arangev") || !strcmp (t[0], "brange"))
+    track_slot_if_new (a[1]);
   else if (!strcmp (t[0], "newobj") || !strcmp (t[0], "newobjr"))
     {
       objkind[a[1]] = t[0][6] == 'r' ? 1 + a[2] : 0;
